@@ -701,23 +701,47 @@ pub fn run_seq_case(case: &SeqCase, policy: &Policy) -> SeqOutcome { run_seq_cas
 
 /// `focus`: the property under check; oracle failures of other properties that leave the model valid are deferred.
 pub fn run_seq_case_focus(case: &SeqCase, policy: &Policy, focus: &str) -> SeqOutcome {
-    mark_harness_thread();
-    match catch_unwind(AssertUnwindSafe(|| run_seq_case_inner(case, policy, focus))) {
-        Ok(outcome) => outcome,
-        Err(_) => {
-            verif::install(None);
-            SeqOutcome { stats: CaseStats::default(), failure: Some(Failure::new("INCONCLUSIVE", "harness/panic", "the harness itself panicked while running this case (harness defect, not a verdict about the cache)".to_string())) }
+    // the case runs on a thread of its own: an API call that never returns (a caller blocked for ever inside the cache)
+    // must not hang the campaign; it is reported as a stall and the thread is left behind
+    let (sender, receiver) = std::sync::mpsc::channel();
+    let progress = Arc::new(std::sync::atomic::AtomicU64::new(0));
+    let (case_owned, policy_owned, focus_owned, progress_thread) = (case.clone(), policy.clone(), focus.to_string(), progress.clone());
+    std::thread::spawn(move || {
+        mark_harness_thread();
+        let outcome = match catch_unwind(AssertUnwindSafe(|| run_seq_case_inner(&case_owned, &policy_owned, &focus_owned, &progress_thread))) {
+            Ok(outcome) => outcome,
+            Err(_) => {
+                verif::install(None);
+                SeqOutcome { stats: CaseStats::default(), failure: Some(Failure::new("INCONCLUSIVE", "harness/panic", "the harness itself panicked while running this case (harness defect, not a verdict about the cache)".to_string())) }
+            }
+        };
+        let _ = sender.send(outcome);
+    });
+    let mut last = 0;
+    let mut idle = std::time::Instant::now();
+    loop {
+        match receiver.recv_timeout(Duration::from_millis(250)) {
+            Ok(outcome) => return outcome,
+            Err(std::sync::mpsc::RecvTimeoutError::Disconnected) => return SeqOutcome { stats: CaseStats::default(), failure: Some(Failure::new("INCONCLUSIVE", "harness/panic", "the case thread ended without a result".to_string())) },
+            Err(std::sync::mpsc::RecvTimeoutError::Timeout) => {
+                let now = progress.load(Ordering::Acquire);
+                if now != last { last = now; idle = std::time::Instant::now(); }
+                if idle.elapsed() > WATCHDOG + Duration::from_secs(10) {
+                    return SeqOutcome { stats: CaseStats::default(), failure: Some(Failure::new("STALL", "stall/caller-blocked", format!("operation #{} of the history did not return within {:?}: the calling thread is blocked inside the cache", now, WATCHDOG + Duration::from_secs(10)))) };
+                }
+            }
         }
     }
 }
 
-fn run_seq_case_inner(case: &SeqCase, policy: &Policy, focus: &str) -> SeqOutcome {
+fn run_seq_case_inner(case: &SeqCase, policy: &Policy, focus: &str, progress: &std::sync::atomic::AtomicU64) -> SeqOutcome {
     let mut exec = Exec::new(&case.cfg, policy);
     exec.focus = focus.to_string();
     let mut failure = None;
     if let Err(mut error) = exec.start_noise() { error.at_op = 0; failure = Some(error); }
     for (index, op) in case.ops.iter().enumerate() {
         if failure.is_some() { break; }
+        progress.store(index as u64 + 1, Ordering::Release);
         exec.op_index = index;
         if let Err(mut error) = exec.exec_op(op) {
             error.at_op = index;
